@@ -906,4 +906,84 @@ def iterNext : Nat → Nat → Nat
   | 0, s => s
   | n + 1, s => iterNext n (C05.next s)
 
+/-! ## Phase 6: what runs when a read is ABANDONED.  A read that is dropped after k items is a generator closed while it is suspended
+at a `yield`: CPython raises `GeneratorExit` (a `BaseException`, not an `Exception`) at that `yield` in every generator of the
+pipeline.  The session model (`Demand.pull k`, `touchN`) assumes that NO code of any stage runs then: the fields stay as they were
+at the `yield`.  That is true exactly when no `try` around a `yield` has a `finally` or a handler that catches `GeneratorExit`
+(bare `except`, `BaseException`, `GeneratorExit`) and every `with` around a `yield` only releases a resource.  The rows below are
+every `try` / `with` statement around a `yield` in the anchored files (extracted from the source on every run: `Generated.abandonRows`). -/
+structure TryRow where
+  file : String
+  fn : String
+  /-- "try" (names = the handlers' exception classes) or "with" (names = the context managers) -/
+  kind : String
+  names : List String
+  fin : Bool
+deriving DecidableEq, Repr
+
+/-- does `except <h>:` catch the `GeneratorExit` of a closed generator -/
+def catchesExit (h : String) : Bool := h == "<bare>" || h == "BaseException" || h == "GeneratorExit"
+
+/-- stage code runs when the generator is closed inside this statement -/
+def TryRow.runsOnAbandon (r : TryRow) : Bool := r.kind == "try" && (r.fin || r.names.any catchesExit)
+
+/-- context managers that only release a file handle / stop a timer (no field of any pipe object) -/
+def resourceManagers : List String :=
+  ["ZipFile(self._zip)", "z.open(self._member)", "opener(self._path, self._mode)", "CobaContext.logger.time('Materializing environment...')"]
+
+def TryRow.silent (r : TryRow) : Bool := !r.runsOnAbandon && (r.kind != "with" || r.names.all (fun m => resourceManagers.contains m))
+
+def abandonTable : List TryRow :=
+  [⟨"coba/environments/serialized.py", "ZipMemberToObjects.read", "try", ["EOFError"], false⟩,
+   ⟨"coba/environments/serialized.py", "ZipMemberToObjects.read", "with", ["ZipFile(self._zip)"], false⟩,
+   ⟨"coba/environments/serialized.py", "ZipMemberToObjects.read", "with", ["z.open(self._member)"], false⟩,
+   ⟨"coba/environments/serialized.py", "EnvironmentsToObjects.filter", "with", ["CobaContext.logger.time('Materializing environment...')"], false⟩,
+   ⟨"coba/pipes/filters.py", "Cache.filter", "try", ["Exception"], false⟩,
+   ⟨"coba/pipes/sources.py", "DiskSource.read", "with", ["opener(self._path, self._mode)"], false⟩,
+   ⟨"coba/pipes/sources.py", "QueueSource.read", "try", ["BrokenPipeError", "EOFError", "TypeError"], false⟩]
+
+def TryRow.tuple (r : TryRow) : String × String × String × List String × Bool := (r.file, r.fn, r.kind, r.names, r.fin)
+
+/-- what the driver answers when the harness reports that a source line of `fn` ran while an abandoned read was being closed:
+`header` = an `except …:` line was tested (and did not match), `with` = a `with` statement was left, anything else = stage code ran -/
+def abandonObsAllowed (file fn kind : String) : Bool :=
+  if kind == "header" then abandonTable.any (fun r => r.file == file && r.fn == fn && r.kind == "try" && !r.runsOnAbandon)
+  else if kind == "with" then abandonTable.any (fun r => r.file == file && r.fn == fn && r.kind == "with" && r.silent)
+  else false
+
+/-- what the code around the `yield`s of `pipes.Cache.filter` does when the generator is closed there: nothing (the source:
+`except Exception` does not see `GeneratorExit`), the handler's reset `_iter = _cache = None; raise` (a handler that catches it),
+or — hypothetical — a `finally: self._iter = None` -/
+inductive ExitAct | nothing | reset | dropIter
+deriving DecidableEq, Repr
+
+def cacheExitAct (handlers : List String) : ExitAct := if handlers.any catchesExit then .reset else .nothing
+
+def cacheStepX (x : ExitAct) (sz : Option Nat) (c r : List Item) : Demand → CacheSt × Demand
+  | .pull k =>
+    match x with
+    | .nothing => cacheStep sz c r (.pull k)
+    | .reset => (.unread, (cacheStep sz c r (.pull k)).2)
+    | .dropIter =>
+      match cacheStep sz c r (.pull k) with
+      | (.prog c' _, d) => (.done c', d)
+      | p => p
+  | d => cacheStep sz c r d
+
+/-- one read session of a `pipes.Cache` over the upstream sequence `u`, driven as far as `d` (the cache case of `nodeStep`,
+with the exit action made explicit) -/
+def cacheSessX (x : ExitAct) (sz : Option Nat) (u : List Item) (st : CacheSt) (d : Demand) : CacheSt :=
+  match d, st with
+  | .none, st => st
+  | _, .done c => .done c
+  | d, .unread => (cacheStepX x sz [] u d).1
+  | d, .prog c r => (cacheStepX x sz c r d).1
+
+/-- the buffer together with what the saved iterator still holds is the upstream sequence -/
+def CacheOK (u : List Item) : CacheSt → Prop
+  | .unread => True
+  | .prog c r => c ++ r = u
+  | .done c => c = u
+
+
 end Coba.C04
